@@ -11,6 +11,7 @@ import (
 
 	"github.com/sge-network/sge/app/params"
 	"github.com/sge-network/sge/x/mint"
+	mintkeeper "github.com/sge-network/sge/x/mint/keeper"
 	minttypes "github.com/sge-network/sge/x/mint/types"
 )
 
@@ -173,6 +174,25 @@ func runMint(seed uint64, n int, out *Out) {
 					}
 					out.Count("mint.genesis-roundtrip")
 				}()
+			}
+			// a parameter update that succeeds as a message but whose transaction is discarded (a later message of the
+			// same transaction or proposal fails): the configured parameters are unchanged, so the model has nothing to
+			// replay and minting must go on by the stored phases
+			if r.Chance(6) {
+				p2 := genMintParams(r, false)
+				if p2.Validate() == nil {
+					_, _ = e.Tx(func(ctx sdk.Context) error {
+						if _, err := mintkeeper.NewMsgServerImpl(k).UpdateParams(sdk.WrapSDKContext(ctx), &minttypes.MsgUpdateParams{Authority: govAuthority, Params: p2}); err != nil {
+							return err
+						}
+						return fmt.Errorf("a later message of the same transaction fails")
+					})
+					out.Count("mint.discarded-update")
+					if got := k.GetParams(e.Ctx); opParams(got) != opParams(p) {
+						out.Fail(MonFail{Property: "C13", Monitor: "params_only_by_committed_update", Class: "discarded-update", History: h,
+							Detail: fmt.Sprintf("height %d: a discarded MsgUpdateParams changed the parameters the keeper reports: configured %s, reported %s", height, opParams(p), opParams(got))})
+					}
+				}
 			}
 			supBefore := e.Supply()
 			colBefore := e.Bal(collector)
